@@ -469,6 +469,20 @@ def digitize(x, bins, right=False):
     return wrap_result(_cast_arr(res, rnp.dtype(rnp.int64)), rnp.int64, xs.n)
 
 
+def take(a, indices, axis=None, out=None, mode="raise"):
+    a = asarray(a)
+    if axis is None:
+        a = a.reshape(-1)
+    elif axis % max(a.o.ndim, 1) != 0:
+        raise HarnessError("take along a non-leading axis")
+    idx = indices if isinstance(indices, (ndarray, int)) or is_sym(indices) else asarray(indices)
+    res = a[idx]
+    if out is not None:
+        out[...] = res
+        return out
+    return res
+
+
 def repeat(a, repeats, axis=None):
     a = asarray(a).fixed()
     r = _cint(repeats)
@@ -675,7 +689,7 @@ class NumpyShim:
         g = globals()
         for name in ("where nonzero isnan isinf isfinite isclose allclose array_equal sum nansum prod count_nonzero any all "
                      "amax amin sqrt absolute bincount argsort sort unique setxor1d cumsum cumprod flip append concatenate "
-                     "column_stack stack clip diff digitize repeat apply_along_axis errstate quantile nanquantile cov "
+                     "column_stack stack clip diff digitize repeat take apply_along_axis errstate quantile nanquantile cov "
                      "corrcoef generic integer").split():
             setattr(self, name, g[name])
         self.max = amax
